@@ -15,3 +15,17 @@ Definition run_emission (directimg : bool) (h c k : I.type) (wn Tl : list I.type
                 else @eclipse I.type IvTNum fl (@planck I.type IvTNum h c k (nth w wn (@n0 _ IvNum)) Tstar) Rp Rs)
               (seq 0 m) in
   [ map (map Iout) Is ; [ map Iout spec ] ].
+
+(* correlated-k mode: cs are the non-molecular sources, sigma[layer][wn][g] the molecular k-coefficients, kwts the
+   quadrature weights of the k-distribution *)
+Definition run_kemission (directimg : bool) (h c k : I.type) (wn Tl : list I.type)
+  (cs : list (@contrib I.type)) (sigma : list (list (list I.type))) (kwts rho dz mus wts : list I.type)
+  (Tstar Rp Rs dist : I.type) : list (list (list (list Z))) :=
+  let Is := @kemission_I I.type IvTNum h c k wn Tl cs sigma kwts rho dz mus in
+  let m := length wn in
+  let spec := map (fun w =>
+                let fl := @flux I.type IvTNum Is mus wts w in
+                if directimg then @direct I.type IvTNum fl Rp dist
+                else @eclipse I.type IvTNum fl (@planck I.type IvTNum h c k (nth w wn (@n0 _ IvNum)) Tstar) Rp Rs)
+              (seq 0 m) in
+  [ map (map Iout) Is ; [ map Iout spec ] ].
